@@ -77,6 +77,9 @@ fn group(rep: &Report, idx: usize, base: &CCase, reps: usize, seed: u64, keep: b
         }
         if !obs.exit.ok() {
             rep.inconclusive("compress exited non-zero (judged by C01)");
+            if std::env::var("VERIF_DEBUG").is_ok() {
+                eprintln!("C12 debug: {} {:?} :: {}", case.spec.describe(), case.writer.name(), obs.tail);
+            }
             continue;
         }
         let Some(bytes) = obs.archive else {
@@ -124,6 +127,8 @@ pub fn run(tier: Tier, seed: u64) -> i32 {
         // Metadata maps (several entries: their order in the dictionary must not depend on
         // anything but the keys).
         super::c11::gen_metadata(&mut rng, &mut case);
+        // a refused compress (C11's unreadable metadata file) writes nothing to compare
+        case.spec.unreadable_metadata = None;
         if i % 3 == 0 {
             for k in 0..4 {
                 case.spec.metadata_values.retain(|e| e.0 != format!("det{}", k));
